@@ -1193,11 +1193,18 @@ impl<'de> de::Deserializer<'de> for &mut Deserializer<'de> {
                 ));
                 result
             }
-            (TypeInner::Record(_), TypeInner::Record(_)) => {
+            (TypeInner::Record(e), TypeInner::Record(w)) => {
                 let expect = self.expect_type.clone();
                 let wire = self.wire_type.clone();
                 check!(self.expect_type.is_tuple(), "seq_tuple");
-                if !self.wire_type.is_tuple() {
+                // Fields are matched by position: the wire record has to start with the tuple's own
+                // fields (0, 1, ...); whatever follows has a larger id and is skipped afterwards.
+                let leading_fields_match = w
+                    .iter()
+                    .take(e.len())
+                    .enumerate()
+                    .all(|(i, f)| f.id.get_id() == i as u32);
+                if !leading_fields_match {
                     return Err(Error::subtype(format!(
                         "{} is not a tuple type",
                         self.wire_type
